@@ -81,6 +81,9 @@ func NewCryptoKey(factory securememory.SecretFactory, created int64, revoked boo
 
 	sec, err := factory.New(key)
 	if err != nil {
+		// the factory only wipes the source once it has copied it, so do it for the failure paths
+		MemClr(key)
+
 		return nil, err
 	}
 
